@@ -90,25 +90,42 @@ Definition west_step (st : T * T * T) (xw : T * T) : T * T * T :=
   if o_is_zero O w then st else
   let wsum' := wsum + w in
   let xmm := x - m in
-  let m' := m + (w / wsum') * xmm in
-  let s' := s + w * xmm * (x - m') in
+  let inc := (w / wsum') * xmm in
+  let m' := m + inc in
+  let s' := s + wsum * inc * xmm in
   (wsum', m', s').
 
 Definition west (data ws : list T) (ddof : T) : T :=
   let '(wsum, m, s) := fold_left west_step (combine data ws) (zero, zero, zero) in
   s / (wsum - ddof).
 
-(* the pre-repair loop (defect D5): no skip *)
+(* the pre-repair loop (defect D5): no skip of zero weights *)
 Definition west_step_v0 (st : T * T * T) (xw : T * T) : T * T * T :=
   let '(wsum, m, s) := st in
   let '(x, w) := xw in
   let wsum' := wsum + w in
   let xmm := x - m in
-  let m' := m + (w / wsum') * xmm in
-  let s' := s + w * xmm * (x - m') in
+  let inc := (w / wsum') * xmm in
+  let m' := m + inc in
+  let s' := s + wsum * inc * xmm in
   (wsum', m', s').
 Definition west_v0 (data ws : list T) (ddof : T) : T :=
   let '(wsum, m, s) := fold_left west_step_v0 (combine data ws) (zero, zero, zero) in
+  s / (wsum - ddof).
+
+(* the pre-repair update of the sum of squares (defect D6): s += w (x - m)(x - m'), whose sign is
+   not controlled in floating point when the weight absorbs the accumulated weight *)
+Definition west_step_v1 (st : T * T * T) (xw : T * T) : T * T * T :=
+  let '(wsum, m, s) := st in
+  let '(x, w) := xw in
+  if o_is_zero O w then st else
+  let wsum' := wsum + w in
+  let xmm := x - m in
+  let m' := m + (w / wsum') * xmm in
+  let s' := s + w * xmm * (x - m') in
+  (wsum', m', s').
+Definition west_v1 (data ws : list T) (ddof : T) : T :=
+  let '(wsum, m, s) := fold_left west_step_v1 (combine data ws) (zero, zero, zero) in
   s / (wsum - ddof).
 
 (* ---- central moments ---- *)
